@@ -363,6 +363,12 @@ def run(ctx):
     ctx.rule("R19.m", "the hash behind time-dependent draws is a function of its inputs alone: numbergen.Hash.__call__ keeps no per-instance state keyed by anything but the inputs themselves "
                       "(a key that passes through hash(), id(), int(), ... lets two times share an entry: the value at t depends on the visiting order)", floor=1)
     hash_memo_is_exact(ctx, "R19.m")
+    ctx.rule("R19.r", "equal times hash equally: every (numerator, denominator) pair numbergen.Hash._rational builds is read off a value kept in lowest terms (int, Fraction / mpq attributes), "
+                      "never computed by arithmetic of its own", floor=1)
+    rational_pairs_are_canonical(ctx, "R19.r")
+    ctx.rule("R19.x", "who may move the clock: `Time._time` is written only by the constructor, __call__, __next__, __iadd__, __isub__ and the restore in __exit__ (frozen table, one reason each) -- "
+                      "nothing that runs as a side effect of restoring the clock's parameters", floor=5)
+    who_moves_the_clock(ctx, "R19.x")
     from checks.c13 import value_reporters_agree
     value_reporters_agree(ctx, "R19.v")
     from checks.shared import dynamic_set_model
@@ -463,3 +469,78 @@ def hash_memo_is_exact(ctx, rule):
                                  norm(k)[:50], why[:40]), key=f.qualname + "::lossy-memo-key", input="g = UniformRandom(name='n', seed=1, time_dependent=True); visit t=-1 then t=-2 vs t=-2 then t=-1")
     else:
         ctx.ok(rule, f, f.node, "Hash.__call__ %s" % ("keeps no per-instance state keyed by its inputs" if not keyed else "keys its per-instance state by the inputs themselves (%d site(s))" % len(keyed)))
+
+
+def rational_pairs_are_canonical(ctx, rule):
+    """numbergen.Hash._rational turns a time into the (numerator, denominator) pair that is hashed.  Equal times must give
+    equal pairs whatever their representation (Decimal('0.5') and Decimal('0.50'), reached by stepping or set directly):
+    every branch takes the pair from a value that keeps itself in lowest terms -- the integer itself over 1, the
+    `.numerator` / `.denominator` of a Fraction or mpq (or the old gmpy accessors `numer()` / `denom()`) -- and never
+    computes it with arithmetic of its own (digits and exponent, scaling by a power of ten), which is not reduced."""
+    f = ctx.repo.func("numbergen.Hash._rational")
+    pairs = []
+    for st in ast.walk(f.node):
+        if isinstance(st, ast.Assign):
+            for t in st.targets:
+                names = [norm(x) for x in t.elts] if isinstance(t, ast.Tuple) else [norm(t)]
+                if "numer" in names or "denom" in names:
+                    vals = list(st.value.elts) if isinstance(st.value, ast.Tuple) and isinstance(t, ast.Tuple) else [st.value]
+                    for nme, v in zip(names, vals if len(vals) == len(names) else [st.value] * len(names)):
+                        if nme in ("numer", "denom"):
+                            pairs.append((st, nme, v))
+    ctx.require(len(pairs) >= 6, "fewer than 6 numerator / denominator bindings in Hash._rational (%d)" % len(pairs))
+
+    def canonical(v):
+        if isinstance(v, ast.Name) or (isinstance(v, ast.Constant) and v.value == 1):
+            return True
+        if isinstance(v, ast.Attribute) and v.attr in ("numerator", "denominator"):
+            return True
+        if isinstance(v, ast.Call) and norm(v.func) == "int" and len(v.args) == 1 and isinstance(v.args[0], ast.Call) and isinstance(v.args[0].func, ast.Attribute) \
+                and v.args[0].func.attr in ("numer", "denom") and not v.args[0].args:
+            return True
+        return False
+    bad = [(st, nme, v) for st, nme, v in pairs if not canonical(v)]
+    if bad:
+        st, nme, v = bad[0]
+        ctx.fail(rule, f, st, "Hash._rational computes `%s = %s` itself instead of reading it off a value kept in lowest terms: the pair is not reduced, so equal times with different "
+                              "representations (Decimal('0.5') set directly, Decimal('0.50') reached by adding 0.25 twice) hash to different seeds -- the value drawn at time t depends on how t "
+                              "was reached" % (nme, norm(v)[:50]), key=f.qualname + "::pair-not-canonical", input="Time(time_type=Decimal): t = 0.25 + 0.25 vs t = 0.5")
+    else:
+        ctx.ok(rule, f, f.node, "every (numerator, denominator) pair of Hash._rational is read off an integer, a Fraction or an mpq (%d bindings)" % len(pairs))
+
+
+TIME_WRITERS = {
+    "__init__": "starts the clock at zero",
+    "__next__": "the iterator steps the clock",
+    "__call__": "sets the time explicitly (and changes the time type)",
+    "__iadd__": "advances the clock",
+    "__isub__": "moves the clock back",
+    "__exit__": "restores the time saved by __enter__",
+}
+
+
+def who_moves_the_clock(ctx, rule):
+    """Who may write `Time._time`: the constructor, the explicit setters and steppers, and the restore of a time context.
+    Nothing that runs as a side effect of something else (a watcher of a parameter of the clock, a property setter):
+    `__exit__` restores the time and then the parameters timestep / until -- a watcher of `until` that moves the time
+    would overwrite the restored time with something derived from the parameter just restored."""
+    cls = ctx.repo.cls("param.parameters.Time")
+    found = {}
+    for name, fs in cls.methods.items():
+        for g in fs:
+            selfn = g.params[0] if g.params else "self"
+            for st in ast.walk(g.node):
+                targets = st.targets if isinstance(st, ast.Assign) else [st.target] if isinstance(st, (ast.AugAssign, ast.AnnAssign)) else []
+                for t in targets:
+                    for x in ast.walk(t):
+                        if isinstance(x, ast.Attribute) and isinstance(x.ctx, ast.Store) and x.attr == "_time" and isinstance(x.value, ast.Name) and x.value.id == selfn:
+                            found.setdefault(name, (g, st))
+    ctx.require(len(found) >= 5, "fewer than 5 methods of Time write self._time (%d)" % len(found))
+    for name, (g, st) in sorted(found.items()):
+        if name in TIME_WRITERS:
+            ctx.ok(rule, g, st, "sanctioned writer of the clock: %s" % TIME_WRITERS[name])
+        else:
+            ctx.fail(rule, g, st, "Time.%s writes self._time (`%s`): only the constructor, the explicit setters / steppers and __exit__ move the clock -- a writer that runs as a side effect (a watcher "
+                                  "of `until` / `timestep`) fires while __exit__ restores those parameters AFTER the time and overwrites the restored time: leaving a time context no longer "
+                                  "restores the time exactly" % (name, norm(st)[:60]), key="param.parameters.Time.%s::moves-the-clock" % name,
+                     input="t(20); with t: t.until = 5 ...  -> after the block t() != 20")
